@@ -180,3 +180,13 @@ A(V("c11-builder-method-typo", "C11", FA, "builder.add_cursive_pos(", "builder.a
 A(V("c11-build-removed", "C11", FA, "    def build(self, builder):\n        \"\"\"Calls the builder object's ``add_cursive_pos`` callback.\"\"\"", "    def _build(self, builder):\n        \"\"\"Calls the builder object's ``add_cursive_pos`` callback.\"\"\"", "F9-fea"))
 A(V("c11-format2-not-reversed", "C11", "otlLib/builder.py", "reversed(rule.prefix)", "rule.prefix", "FEA-sib", count=2))
 A(V("c11-lookups-sorted", "C11", "feaLib/builder.py", "        for lookup in self.lookups_:\n            lookup.lookup_index = None", "        self.lookups_ = sorted(set(self.lookups_), key=id)\n        for lookup in self.lookups_:\n            lookup.lookup_index = None", "FEA-order"))
+
+# ---- C13 -------------------------------------------------------------------
+CQ = "cu2qu/cu2qu.py"
+A(V("c13-return-unaccepted", "C13", CQ, "        if spline is not None:\n            # done. go home\n            return [(s.real, s.imag) for s in spline]\n\n    raise ApproxNotFoundError(curve)", "        if spline is not None:\n            # done. go home\n            return [(s.real, s.imag) for s in spline]\n\n    return [(s.real, s.imag) for s in curve]", "F25"))
+A(V("c13-tolerance-scaled", "C13", CQ, "        spline = cubic_approx_spline(curve, n, max_err, all_quadratic)", "        spline = cubic_approx_spline(curve, n, max_err * 2, all_quadratic)", "F25"))
+A(V("c13-no-revalidate", "C13", CQ, "            n += 1\n            last_i = i\n            continue", "            n += 1\n            continue", "F25"))
+A(V("c13-wrong-index", "C13", CQ, "cubic_approx_spline(curves[i], n, max_errors[i], all_quadratic)", "cubic_approx_spline(curves[i], n, max_errors[0], all_quadratic)", "F25"))
+A(V("c13-reject-weakened", "C13", CQ, "        if abs(d1) > tolerance or not cubic_farthest_fit_inside(", "        if abs(d1) > tolerance and not cubic_farthest_fit_inside(", "F25"))
+A(V("c13-qu2cu-gate", "C13", "qu2cu/qu2cu.py", "                if not cubic_farthest_fit_inside(p0, p1, p2, p3, tolerance):\n                    error = tolerance + 1\n                    break\n            if error > tolerance:\n                # Not feasible\n                continue", "                if not cubic_farthest_fit_inside(p0, p1, p2, p3, tolerance):\n                    error = tolerance + 1\n                    break", "F25"))
+A(V("c13-benign-rename", "C13", CQ, "    curve = [complex(*p) for p in curve]\n\n    for n in range(1, MAX_N + 1):\n        spline = cubic_approx_spline(curve, n, max_err, all_quadratic)", "    pts = [complex(*p) for p in curve]\n    curve = pts\n\n    for n in range(1, MAX_N + 1):\n        spline = cubic_approx_spline(curve, n, max_err, all_quadratic)", None, expect=0))
